@@ -195,6 +195,28 @@ let () =
           let l = List.sort compare (Hashtbl.fold (fun k () acc -> k :: acc) combos []) in
           output_string oc (Printf.sprintf "N %s 1:%s\n" ci (String.concat "," l))
         end
+    | ("HOST" | "FLAG" as kind) :: ci :: args ->
+        (* one host / flag relation filter to a single sub-query on the model *)
+        let others = match next () with "others" :: xs -> xs | _ -> failwith "others line" in
+        let init = match next () with "init" :: xs -> List.map (fun x -> nat_of_int (int_of_string x)) xs | _ -> failwith "init line" in
+        let m0 : nat -> nat list = fun q -> if int_of_nat q = 0 then init else [] in
+        let sel', ok =
+          if kind = "HOST" then
+            match args with
+            | [ inv; zero; myh; mask ] ->
+                host_filter (inv = "1") (zero = "1") (hex_bytes myh) (hex_bytes mask) O (List.map hex_bytes others) [ m0 ]
+            | _ -> failwith "HOST args"
+          else
+            match args with
+            | [ own; value ] ->
+                flag_filter (n_of_int (int_of_string own)) (n_of_int (int_of_string value)) O
+                  (List.map (fun x -> n_of_int (int_of_string x)) others) [ m0 ]
+            | _ -> failwith "FLAG args" in
+        if not ok then output_string oc (Printf.sprintf "N %s 0:\n" ci)
+        else begin
+          let set = List.sort_uniq compare (List.concat_map (fun m -> List.map int_of_nat (m O)) sel') in
+          output_string oc (Printf.sprintf "N %s 1:%s\n" ci (String.concat "," (List.map (fun x -> Printf.sprintf ".%d" x) set)))
+        end
     | [] -> ()
     | l -> failwith ("unexpected line: " ^ String.concat " " l)
   done;
